@@ -321,6 +321,14 @@ def make_machine(stats, report):
             if not cands:
                 return
             wv = data.draw(st.sampled_from(cands))
+            # "the number of indices must match the rank of the array": the index path must end at an atom of the value
+            cur = self.w.snap(self.w.a).get(wv)
+            for i in [int(t) for t in idx.strip('[]').split()]:
+                if cur is None or cur[0] != 'l' or i >= len(cur[1]):
+                    return
+                cur = cur[1][i]
+            if cur is None or cur[0] not in 'ir':
+                return
             if wv in self.w.derived:
                 self.w.flags.add('amend-of-derived-value')
             self.do(f'{v}::{wv}:-{val},{idx}', {v})
@@ -431,6 +439,14 @@ def run_ops(ops):
         if len(op) > 3 and op[3]:
             w.recipes.update({k: list(v) for k, v in op[3].items()})
         w.pending_recipe = op[3] if len(op) > 3 else None
+        # a call assigns what the function's *current* definition assigns (a minimised history may have lost the
+        # redefinition the recorded set was computed for)
+        import re
+        m = re.match(r'^(?:([a-z])::)?([fg])\(', text)
+        if m and m.group(2) in w.recipes:
+            assigned = set(re.findall(r';([a-z])::', w.recipes[m.group(2)][-1])) - {'q'}
+            if m.group(1):
+                assigned.add(m.group(1))
         try:
             w.run(text, set(assigned), set(inplace))
         except Exception as e:
